@@ -339,6 +339,13 @@ class XInterp(Interp):
                     obj.dom = z3.Store(obj.dom, k, z3.BoolVal(False))
                     obj.order = None
                     continue
+                if isinstance(obj, PyList):
+                    i = self.eval(t.slice, env)
+                    if isinstance(i, int) and not isinstance(i, bool):          # del lst[i] with a concrete position
+                        if not -len(obj.items) <= i < len(obj.items):
+                            raise RaiseExc("IndexError", s)
+                        del obj.items[i]
+                        continue
             super().s_Delete(ast.Delete(targets=[t]), env)
 
     # ---- arithmetic
@@ -415,6 +422,8 @@ class XInterp(Interp):
         return super().truthy(v)
 
     def method_of_builtin(self, o, name, args, kw, node):
+        if isinstance(o, str) and name in ("lower", "upper", "strip") and not args and not kw:
+            return getattr(o, name)()               # concrete strings only
         if isinstance(o, DictV):
             if name in ("items", "keys"):
                 if o.order is None:
